@@ -507,6 +507,8 @@ def int_xor(a, b):
 
 
 def int_pow(a, b):
+    if is_sym(b) and not is_sym(a):
+        return PowExpr(a, b)
     if is_sym(b):
         b = CUR.concretize(b, what="exponent")
     if not is_sym(a):
@@ -642,7 +644,48 @@ def cmp_float(op, a, b):
     return mk_bool(t)
 
 
+class PowExpr:
+    """base ** exponent with a concrete base and a symbolic exponent (uninterpreted; structural equality)"""
+
+    def __init__(self, base, exp):
+        self.base = base
+        self.exp = exp
+
+
+class FloatExpr:
+    """an uninterpreted binary64 expression (e.g. a timestamp tsoffset + ticks / divisor): only structural equality"""
+
+    def __init__(self, op, args):
+        self.op = op
+        self.args = tuple(args)
+
+    def __repr__(self):
+        return "FloatExpr(%s,%r)" % (self.op, self.args)
+
+    def pyvc_eq(self, I, o):
+        if not isinstance(o, FloatExpr) or o.op != self.op or len(o.args) != len(self.args):
+            return False
+        r = True
+        for x, y in zip(self.args, o.args):
+            if isinstance(x, FloatExpr) or isinstance(y, FloatExpr):
+                e = x.pyvc_eq(I, y) if isinstance(x, FloatExpr) else False
+            elif isinstance(x, float) or isinstance(y, float):
+                e = (x == y) if not is_sym(x) and not is_sym(y) else cmp_float("==", x, y)
+            else:
+                e = cmp_num("==", x, y)
+            r = band(r, e)
+        return r
+
+    def pyvc_binop(self, I, op, other, reflected):
+        name = {"Add": "add", "Sub": "sub", "Mult": "mul", "Div": "div"}.get(op)
+        if name is None:
+            raise Unsupported("operator %s on an opaque float" % op)
+        return FloatExpr(name, (other, self) if reflected else (self, other))
+
+
 def true_div(a, b):
+    if isinstance(a, FloatExpr) or isinstance(b, FloatExpr) or ((is_sym(a) or is_sym(b)) and (isinstance(a, float) or isinstance(b, float))):
+        return FloatExpr("div", (a, b))
     if not is_sym(a) and not is_sym(b) and not isinstance(a, SymFloat) and not isinstance(b, SymFloat):
         if b == 0:
             raise PyExc("ZeroDivisionError", "division by zero")
@@ -736,7 +779,9 @@ class BList(SymBytes):
         if isinstance(i, int):
             if 0 <= i < len(self.items):
                 return self.items[i]
-            raise Unsupported("BList.at(%d) out of range %d" % (i, len(self.items)))
+            # reads outside the string are guarded by the interpreter's index checks; inside merged
+            # if-then-else terms a dead branch may ask for one: an unconstrained value (never a wrong "proof")
+            return SymInt(CUR.fresh_int("oob"))
         if len(self.items) == 0:
             return SymInt(CUR.fresh_int("oob"))  # out-of-range read: unconstrained (callers guard by length)
         # symbolic index into a concrete-length list: ite chain
@@ -820,13 +865,18 @@ class BCat(SymBytes):
             lo = off
             off = off + p.length
             conds.append((lo, off, p))
+        def safe_at(p, k):
+            # inside an if-then-else over the parts an index may lie outside this part: that branch is dead
+            if isinstance(p, BList) and isinstance(k, int) and not 0 <= k < len(p.items):
+                return 0
+            return p.at(k)
         # last part is the default
         lo, hi, p = conds[-1]
-        t = T(p.at(i - lo))
+        t = T(safe_at(p, i - lo))
         for lo, hi, p in reversed(conds[:-1]):
             if isinstance(p.length, int) and p.length == 0:
                 continue
-            t = z3.If(T(i) < T(hi), T(p.at(i - lo)), t)
+            t = z3.If(T(i) < T(hi), T(safe_at(p, i - lo)), t)
         return mk_int(t)
 
     def __repr__(self):
